@@ -1285,9 +1285,12 @@ class tensor:
 
         # Np transpose does error checking on order, acts as permutation
 
-        return ttb.tensor(
-            to_memory_order(np.transpose(self.data, order), self.order), copy=False
-        )
+        data = to_memory_order(np.transpose(self.data, order), self.order)
+        if np.may_share_memory(data, self.data):
+            # A permutation that only moves singleton modes leaves the transposed
+            # view contiguous, so no new array was allocated: copy explicitly
+            data = data.copy(order=self.order)
+        return ttb.tensor(data, copy=False)
 
     def reshape(self, shape: Shape) -> tensor:
         """
